@@ -454,6 +454,14 @@ class Interp:
             cur.extend(self.iterate(rhs))
             return
         v = self.binop(type(st.op), cur, rhs)
+        if isinstance(cur, np.ndarray) and isinstance(v, np.ndarray) and v.shape == cur.shape:
+            # numpy's augmented assignment works IN PLACE: every alias / view of the array sees the update
+            ok = cur.dtype == object or (v.dtype != object and not (cur.dtype.kind in "iub" and v.dtype.kind in "fc"))
+            if ok and cur.flags.writeable:
+                cur[...] = v
+                if not isinstance(t, ast.Name):
+                    self.assign_target(t, cur, env, module)
+                return
         self.assign_target(t, v, env, module)
 
     @staticmethod
